@@ -87,7 +87,12 @@ def _print_Piecewise(
         else:
             return printer._print(cond)
 
-    simplified = sympy.simplify(expr)
+    try:
+        simplified = sympy.simplify(expr)
+    except TypeError:
+        # sympy cannot always decide relations between unevaluated numbers,
+        # e.g. Lt(x, -0.5) where -0.5 is kept as -1*0.5. Print it as it is
+        simplified = expr
     if isinstance(simplified, sympy.Piecewise):
         # simplify may collapse the Piecewise into a plain expression
         # (e.g. when both branches coincide), in which case we keep the original
